@@ -999,8 +999,10 @@ func main() {
 	}
 }
 `)
-	// region "literal-slot": go func(){...}() in a loop; the slot of the literal is reset when calls return
-	ts = append(ts, c09tmpl{Name: "goroutine-literals", Class: "conc", Region: "literal-slot", Kind: "park", Threads: 4, KMax: 30, Infinite: true,
+	// corpus case: the witness of the repaired literal-slot defect (fix abe7a69: getFunc no longer writes the
+	// literal's slot back when a call returns): go func(){...}() in a loop; before the repair the go statement in
+	// flight could call the nil function and kill the host process
+	ts = append(ts, c09tmpl{Name: "goroutine-literals", Class: "conc", Kind: "park", Threads: 4, KMax: kC, Infinite: true,
 		Src: c09hdrSrc("") + `func main() {
 	for i := 1; i <= 3; i++ {
 		go func(id int) {
@@ -1187,9 +1189,6 @@ func runC09(args []string) error {
 		sm.count("template:" + t.Name)
 		if res.Err != "" {
 			reg := ""
-			if t.Region == "literal-slot" && strings.Contains(res.Err, "call of nil function") {
-				reg = t.Region
-			}
 			sm.HarnessViolations = append(sm.HarnessViolations, refMismatch{ID: i, Region: reg, Input: in, Impl: res.Err, Ref: "the run completes", Note: "the worker process was killed by a panic in an interpreted goroutine"})
 			sm.count("host-process-killed:" + reg)
 			continue
